@@ -20,3 +20,12 @@ func github.com/ipfs/go-block-format.BasicBlock.Cid
   assumed
   modifies nothing
   ensures result == blkCid(self)
+# a CID is "the sum of" some bytes when hashing exactly these bytes under the CID's own prefix gives that CID (go-cid
+# Prefix.Sum); collision resistance of the hash is what makes "isSumOf(c, b)" mean "b is the genuine content named by c"
+fn isSumOf(c ref, data []byte) bool
+# go-cid: Equals is equality of the CID values
+func github.com/ipfs/go-cid.Cid.Equals
+  assumed
+  params o
+  modifies nothing
+  ensures result == (self == o)
